@@ -17,11 +17,22 @@ PROPS = {
                         'client Rule/Task code (assumed deterministic, as the property does)'],
     },
     'C02': {
-        'units': ['engine'],
+        'units': ['engine', 'sqlite'],
         'design_ref': 'DESIGN.md section 4, C02',
         'claim': 'every reason reported to the delegate is true of the rule record at the moment of the report (precondition of the delegate stub at '
                  'every call site under contract); a task is created only from NeedsToRun and the rule leaves that state; an unchanged value keeps computedAt',
         'not_decided': ['the shadow-epoch history argument of the property (every step of it is proved, the induction is lemma L1)', 'breakCycle (Forced)'],
+    },
+    'C03': {
+        'units': ['sqlite', 'engine_build'],
+        'design_ref': 'DESIGN.md section 4, C03',
+        'claim': 'lookupRuleResult reads every field of a stored result from the column the SELECT text names for it (both the fast and the join path; '
+                 'the column order is parsed from the SQL literals on every run), decodes the dependency blob word by word into (key of id, order-only, '
+                 'single-use) in order, caches the id mapping both ways and holds dbMutex throughout; getKeyIDForID maps a stored key text with its stored '
+                 'byte length (NUL-safe); build() runs nothing when BEGIN EXCLUSIVE fails',
+        'not_decided': ['SQLite itself (statement semantics, type affinity of the key column -- candidate finding F11, BEGIN EXCLUSIVE, atomic commit)',
+                        'setRuleResult (encode side) and open() (schema/version gate) are not under contract at this commit',
+                        'getKeyIDForID is used inside lookupRuleResult through an assumed functional view (its cache/db consistency is not proved)'],
     },
     'C04': {
         'units': ['engine_build'],
